@@ -90,7 +90,7 @@ pub enum Kind {
     Oversized { fields: u32, field_len: u32 },
     /// `hpack_probe`: the streams above the limit carry a literal with incremental indexing, and a later
     /// request refers to it (RFC 9113 §4.3: a refused field block must still be processed)
-    TooManyStreams { extra: u32, #[serde(default)] hpack_probe: bool },
+    TooManyStreams { extra: u32, #[serde(default)] hpack_probe: bool, #[serde(default)] with_body: bool },
 }
 
 #[derive(Clone, Debug, PartialEq, Serialize, Deserialize)]
@@ -272,11 +272,15 @@ pub fn build_abuser(ca: &ClientAbuse, h2: &H2Knobs, sibling_len: usize) -> (bool
         Kind::Wu0Flood { count } => s.push(ClientOp::Abuse(AbuseOp::WindowUpdate { stream: StreamRef::Conn, increment: 1, count: *count })),
         Kind::GlitchFlood { count } => s.push(ClientOp::Abuse(AbuseOp::WindowUpdate { stream: StreamRef::LastClosed, increment: 1, count: *count })),
         Kind::Oversized { fields, field_len } => s.push(ClientOp::Abuse(AbuseOp::OversizedHeaders { fields: *fields, field_len: *field_len, authority: HOST_A.into() })),
-        Kind::TooManyStreams { extra, hpack_probe } => {
+        Kind::TooManyStreams { extra, hpack_probe, with_body } => {
             for i in 0..(h2.max_streams + extra) {
                 let mut block = req_block(ID_MCS + i as u64, &format!("/mcs/{i}"));
                 if *hpack_probe && i >= h2.max_streams { HpackEncoder::literal(&mut block, b"x-dyn", format!("v{i}").as_bytes(), Repr::IncrIndex, None, false); }
-                s.push(ClientOp::Abuse(AbuseOp::Frame { ty: ftype::HEADERS, flags: flag::END_STREAM | flag::END_HEADERS, stream: StreamRef::Fresh, declared_len: None, payload: block }));
+                // the requests above the limit may carry a body: its DATA frame is already in flight when sozu's
+                // RST_STREAM(REFUSED_STREAM) leaves, and must be tolerated (RFC 9113 5.1, closed state)
+                let body = *with_body && i >= h2.max_streams;
+                s.push(ClientOp::Abuse(AbuseOp::Frame { ty: ftype::HEADERS, flags: if body { flag::END_HEADERS } else { flag::END_STREAM | flag::END_HEADERS }, stream: StreamRef::Fresh, declared_len: None, payload: block }));
+                if body { s.push(ClientOp::Abuse(AbuseOp::Frame { ty: ftype::DATA, flags: flag::END_STREAM, stream: StreamRef::LastOpened, declared_len: None, payload: vec![b'x'; 10] })); }
             }
             if *hpack_probe {
                 s.push(ClientOp::Sleep(3 * SEC));
